@@ -197,7 +197,7 @@ func execHS(p mseParams, m map[string]string) string {
 	ea, eb, a2b, b2a := newDuplex(parseChunks(m["ca"]), parseChunks(m["cb"]))
 	sr, restore := installRand()
 	defer restore()
-	cancel := watchdog(20*time.Second, ea, eb)
+	cancel := watchdog(5*time.Second, ea, eb)
 	defer cancel()
 	rb := parseChunks(m["rb"])
 
@@ -264,7 +264,7 @@ func execIn(p mseParams, m map[string]string) string {
 	ea, eb, a2b, b2a := newDuplex(nil, parseChunks(m["cb"]))
 	sr, restore := installRand()
 	defer restore()
-	cancel := watchdog(20*time.Second, ea, eb)
+	cancel := watchdog(5*time.Second, ea, eb)
 	defer cancel()
 	var wg sync.WaitGroup
 	var resB string
@@ -300,7 +300,7 @@ func execOut(p mseParams, m map[string]string) string {
 	ea, eb, a2b, b2a := newDuplex(parseChunks(m["ca"]), nil)
 	sr, restore := installRand()
 	defer restore()
-	cancel := watchdog(20*time.Second, ea, eb)
+	cancel := watchdog(5*time.Second, ea, eb)
 	defer cancel()
 	var wg sync.WaitGroup
 	var resA string
